@@ -143,7 +143,7 @@ def run(ctx):
 def search(ctx):
     rng = ctx.subrng('search')
     ctx._max_lines = 0
-    names = list(programs.PROGRAMS)
+    names = [n for n in programs.PROGRAMS if 'threshold' not in programs.PROGRAMS[n][1]]   # deals use the CURRENT threshold
     for k in range(ctx.scale(200, 2000)):
         m, t, no_prss = rng.choice(CFGS)
         name = names[k % len(names)]
